@@ -150,8 +150,8 @@ fn pinned_mode(mode: &Mode, f: &Failure) -> Option<Mode> {
             grab("cut=").map(|k| Mode::Crash { cuts: CutSel::Steps(vec![k]), depth: *depth, suffix_every: *suffix_every, verify: *verify })
         }
         Mode::Power { cuts: CutSel::All { .. } } => grab("cut=").map(|k| Mode::Power { cuts: CutSel::Steps(vec![k]) }),
-        Mode::Err { site: SiteSel::All { .. }, errno, suffix_seed } => {
-            grab("site=").map(|k| Mode::Err { site: SiteSel::Sites(vec![k]), errno: *errno, suffix_seed: *suffix_seed })
+        Mode::Err { site: SiteSel::All { .. }, errno, suffix_seed, second_gap } => {
+            grab("site=").map(|k| Mode::Err { site: SiteSel::Sites(vec![k]), errno: *errno, suffix_seed: *suffix_seed, second_gap: *second_gap })
         }
         _ => None,
     }
